@@ -103,6 +103,17 @@ def boot_pygaps():
     pygaps.data.DATABASE = fence
     pgsql.DATABASE = fence
     pygaps.DATABASE = fence
+    # import (not execute) every pyGAPS sub-package now, so that sessions forked from this process do not pay
+    # for - or differ by - lazy imports; importing creates the module-level caches empty
+    import importlib
+    for modname in ("pygaps.characterisation", "pygaps.iast", "pygaps.modelling", "pygaps.parsing",
+                    "pygaps.parsing.json", "pygaps.parsing.csv", "pygaps.parsing.aif", "pygaps.parsing.excel",
+                    "pygaps.graphing", "pygaps.utilities.sqlite_db_creator", "scipy.optimize", "scipy.interpolate",
+                    "scipy.stats", "openpyxl", "xlrd", "xlwt", "gemmi"):
+        try:
+            importlib.import_module(modname)
+        except Exception:
+            pass
     import numpy
     numpy.seterr(all="ignore")
     sqlseam.reset()
